@@ -514,10 +514,15 @@ func init() {
 	}
 
 	// ---- runtime / misc
-	reg([]string{"runtime.GC", "runtime.Gosched", "runtime.KeepAlive", "runtime.SetFinalizer", "runtime.Breakpoint",
+	reg([]string{"runtime.Gosched", "time.Sleep"}, func(fr *frame, args []value) value {
+		if sch != nil {
+			sch.yield()
+		}
+		return nil
+	})
+	reg([]string{"runtime.GC", "runtime.KeepAlive", "runtime.SetFinalizer", "runtime.Breakpoint",
 		"internal/race.Acquire", "internal/race.Release", "internal/race.ReleaseMerge", "internal/race.Disable", "internal/race.Enable",
-		"internal/race.Read", "internal/race.Write", "internal/race.ReadRange", "internal/race.WriteRange",
-		"time.Sleep"}, nop)
+		"internal/race.Read", "internal/race.Write", "internal/race.ReadRange", "internal/race.WriteRange"}, nop)
 	natives["internal/abi.NoEscape"] = func(fr *frame, args []value) value { return args[0] }
 	natives["runtime.Stack"] = func(fr *frame, args []value) value { return 0 }
 	natives["runtime.Caller"] = func(fr *frame, args []value) value { return tuple{uintptr(0), "", 0, false} }
@@ -752,7 +757,9 @@ func init() {
 		if px != nil {
 			px.events = append(px.events, fr.fn.String()+fmt.Sprintf("@%p", args[0]))
 		}
-		if owner, held := lockOwner[m]; held && owner != curThread {
+		if sch != nil {
+			sch.block("mutex lock", func() bool { _, held := lockOwner[m]; return !held })
+		} else if owner, held := lockOwner[m]; held && owner != curThread {
 			if curThread == 1 {
 				panic(hookBlocked{})
 			}
@@ -782,12 +789,61 @@ func init() {
 	}
 	reg([]string{"(*sync.Mutex).Lock", "(*sync.RWMutex).Lock", "(*sync.RWMutex).RLock"}, lockFn)
 	reg([]string{"(*sync.Mutex).Unlock", "(*sync.RWMutex).Unlock", "(*sync.RWMutex).RUnlock"}, unlockFn)
-	reg([]string{"(*sync.WaitGroup).Add", "(*sync.WaitGroup).Done", "(*sync.Cond).Signal", "(*sync.Cond).Broadcast"}, func(fr *frame, args []value) value {
+	// WaitGroup: a counter; Wait blocks only in thread mode (threads.go), elsewhere goroutines are not run
+	wgAdd := func(w *value, d int64) {
+		old, had := wgCount[w]
+		journalFn(func() {
+			if had {
+				wgCount[w] = old
+			} else {
+				delete(wgCount, w)
+			}
+		})
+		wgCount[w] = old + d
+		if wgCount[w] < 0 {
+			panic(targetPanicStr("sync: negative WaitGroup counter"))
+		}
+	}
+	natives["(*sync.WaitGroup).Add"] = func(fr *frame, args []value) value {
+		wgAdd(args[0].(*value), asInt64(args[1]))
+		return nil
+	}
+	natives["(*sync.WaitGroup).Done"] = func(fr *frame, args []value) value {
+		wgAdd(args[0].(*value), -1)
+		return nil
+	}
+	natives["(*sync.WaitGroup).Wait"] = func(fr *frame, args []value) value {
+		if sch != nil {
+			w := args[0].(*value)
+			sch.block("WaitGroup.Wait", func() bool { return wgCount[w] == 0 })
+		}
+		return nil
+	}
+	reg([]string{"(*sync.Cond).Signal", "(*sync.Cond).Broadcast"}, func(fr *frame, args []value) value {
+		c := args[0].(*value)
+		old := condGen[c]
+		journalFn(func() { condGen[c] = old })
+		condGen[c] = old + 1
 		return nil
 	})
 	natives["(*sync.Mutex).TryLock"] = func(fr *frame, args []value) value { return true }
-	natives["(*sync.WaitGroup).Wait"] = nop
-	natives["(*sync.Cond).Wait"] = func(fr *frame, args []value) value { panic(pathAbort{"sync.Cond.Wait would block", false}) }
+	natives["(*sync.Cond).Wait"] = func(fr *frame, args []value) value {
+		if sch == nil {
+			panic(pathAbort{"sync.Cond.Wait would block", false})
+		}
+		c := args[0].(*value)
+		var locker iface
+		for _, f := range (*c).(structure) {
+			if x, ok := f.(iface); ok && x.t != nil {
+				locker = x
+			}
+		}
+		gen := condGen[c]
+		callIfaceMethod(fr, locker, "Unlock", nil)
+		sch.block("Cond.Wait", func() bool { return condGen[c] != gen })
+		callIfaceMethod(fr, locker, "Lock", nil)
+		return nil
+	}
 	natives["(*sync.Once).Do"] = func(fr *frame, args []value) value {
 		o := args[0].(*value)
 		if onceDone[o] {
@@ -961,13 +1017,49 @@ func init() {
 		}
 		return res
 	}
-	reg([]string{"(*time.Timer).Stop", "(*time.Timer).Reset"}, func(fr *frame, args []value) value { return true })
+	// Timers never fire on their own inside the engine. Every timer is recorded (creation order,
+	// duration, callback, armed or not) so that a harness can inspect it and, in thread mode, fire an
+	// AfterFunc callback on a goroutine of its own (vTimerFire).
+	timerOf := func(p *value) *timerRec {
+		for _, t := range timerRecs {
+			if t.cell == p {
+				return t
+			}
+		}
+		return nil
+	}
+	natives["(*time.Timer).Stop"] = func(fr *frame, args []value) value {
+		if t := timerOf(args[0].(*value)); t != nil {
+			was := t.armed
+			journalFn(func() { t.armed = was })
+			t.armed = false
+			return was
+		}
+		return true
+	}
+	natives["(*time.Timer).Reset"] = func(fr *frame, args []value) value {
+		if t := timerOf(args[0].(*value)); t != nil {
+			was, d := t.armed, t.d
+			journalFn(func() { t.armed, t.d = was, d })
+			t.armed, t.d = true, args[1]
+			return was
+		}
+		return true
+	}
 	natives["time.AfterFunc"] = func(fr *frame, args []value) value {
 		if px != nil {
 			px.events = append(px.events, "time.AfterFunc")
 		}
 		cell := zero(mustDeref(fr.fn.Signature.Results().At(0).Type()))
-		return &cell
+		p := &cell
+		var f value
+		if len(args) > 1 {
+			f = args[1]
+		}
+		old := timerRecs
+		journalFn(func() { timerRecs = old })
+		timerRecs = append(old[:len(old):len(old)], &timerRec{cell: p, d: args[0], f: f, armed: true})
+		return p
 	}
 	natives["time.NewTimer"] = natives["time.AfterFunc"]
 
@@ -983,6 +1075,17 @@ func init() {
 }
 
 var onceDone = map[*value]bool{}
+var wgCount = map[*value]int64{}
+
+type timerRec struct {
+	cell  *value
+	d     value
+	f     value
+	armed bool
+}
+
+var timerRecs []*timerRec
+var condGen = map[*value]int{}
 var poolItems = map[*value][]value{}
 var ctxTimeouts = map[*value]value{}
 
